@@ -189,6 +189,7 @@ class TraitSpec:
         self.trailing_plus = False    # `trait Tr: A + B + {` (legal; what `$($sup +)*` in a macro_rules body produces)
         self.where = []
         self.ghosts = []      # (position, text) of methods that are configured out in every build
+        self.inner_attrs = [] # inner attributes / inner doc comments at the start of the trait body
         self.methods = []
         self.async_trait = None       # attribute text or None
         self.extra_items = []         # raw item texts (assoc types, default methods) for pinned cases
@@ -216,6 +217,7 @@ class TraitSpec:
                                         self.generics_text(), (": " + " + ".join(self.supers) + (" +" if self.trailing_plus else "")) if self.supers else "",
                                         (" where " + ", ".join(self.where)) if self.where else "")
         L.append(head)
+        L += ["    " + a for a in self.inner_attrs]
         for i, m in enumerate(self.methods):
             L += ["    " + g for pos, g in self.ghosts if pos == i]
             for a in m.attrs:
@@ -244,6 +246,8 @@ GHOST_IMPL_FNS = ["#[cfg(any())] pub fn ghost_a<D>(deps: &D, q: NoSuchType) -> i
 def random_trait(rng, name="Tr", dyn_safe=False, allow_async=True, with_async_trait=False, allow_generic_trait=True, nmethods=None, uninferable=False,
                  allow_ghost=False):
     t = TraitSpec(name)
+    if allow_ghost and rng.random() < 0.12:
+        t.inner_attrs = rng.sample(["#![allow(non_snake_case)]", "//! inner docs of the trait", "#![doc = \"more\"]", "#![allow(unused_variables, clippy::all)]"], rng.randint(1, 2))
     if allow_ghost and rng.random() < 0.15:
         # a method that no build contains (disabled by `cfg`, or by a `cfg` that a `cfg_attr` produces): the trait, the
         # delegating impl and hand-written impls all have to agree that it does not exist
